@@ -221,8 +221,9 @@ def write_evidence(prop, mod, tier, seed, merged, wall, nviol, active,
           "level": mod.LEVEL, "coverage": cov,
           "assumptions": list(getattr(mod, "ASSUMPTIONS", [])),
           "wall_s": round(wall, 2), "violations": nviol}
-    os.makedirs(os.path.join(ROOT, "evidence"), exist_ok=True)
-    with open(os.path.join(ROOT, "evidence", prop + ".json"), "w") as f:
+    evdir = os.environ.get("VERIF_EVIDENCE_DIR") or os.path.join(ROOT, "evidence")
+    os.makedirs(evdir, exist_ok=True)
+    with open(os.path.join(evdir, prop + ".json"), "w") as f:
         json.dump(ev, f, indent=1, sort_keys=True)
         f.write("\n")
 
